@@ -61,6 +61,30 @@ def classify(body, lines, op):
     return "c09:delivery-" + kind
 
 
+def delivered_to_the_current_destination(ctx, exe):
+    """the work must reach the destination the running contract has *now*: the seller world's histories with destination
+    updates, closes and re-purchases under other destinations (C08's harness), judged by the C08 monitor's placement clauses —
+    a miner working for a contract is directed to the destination on chain, and a live contract gets work"""
+    rc, out = L.run_harness(ctx, exe, "TestVerifSeller$", env={"VERIF_N": 200 if ctx.tier == "quick" else 2000, "VERIF_FLUSH": 1}, timeout=1500)
+    if rc != 0:
+        if not L.crash_violation(ctx, "seller.impl.txt", out, "c09"):
+            ctx.tie_failures.append("seller harness run failed (rc=%d): %s" % (rc, out[-300:]))
+        return 0
+    cases = dict(L.parse_cases(ctx.out + "/seller.impl.txt"))
+    for case, c in L.run_monitor(ctx, "c08", "seller.impl.txt"):
+        body, _, op = c.partition(" @ ")
+        if not body.startswith("PROP ") or "is directed to" not in body and "no miner is directed" not in body:
+            continue
+        ops = []
+        for l in cases.get(case, []):
+            if l.startswith("> "):
+                ops.append(l)
+        L.violation(ctx, "c09:work-goes-to-another-destination-than-the-contracts", body[5:] + " @ " + op,
+                    {"clause": "delivery is work that reaches the running contract's destination", "case": case, "ops": ops, "how_to_replay": "bin/check C08 --replay <this file>"})
+        break
+    return len(cases)
+
+
 def run(ctx):
     ctx.trusted_base += [
         "tools/gofacts c09: the three thresholds of adjustHashrate, its statement skeleton, the booking statements of onCycleEnd and the delivery log fields are re-extracted from contract_seller_v2.go on every run (Gen/C09.lean) and compared with what Model/Delivery.lean was written from (theorems thresholds, cycleEnd_source, adjust_source, log_source)",
@@ -72,7 +96,7 @@ def run(ctx):
     ctx.assumptions += ["one contract at a time in the delivery histories (competing contracts are exercised by the C08 histories, judged there for direction only)",
                         "the fake miners submit work uniformly at their nominal hashrate; share-level jitter is not generated",
                         "'enough eligible hashrate' is read as: connected hashrate at least 1.2 × the contracted rate ever since the purchase"]
-    L.regen(ctx, ["C09", "C11", "C07"])
+    L.regen(ctx, ["C09", "C11", "C07", "C09b"])
     L.prove(ctx)
     if not L.build_driver(ctx):
         return
@@ -130,6 +154,7 @@ def run(ctx):
             logs += l.startswith("< cyclelog")
         cyc, hrs = world_of(lines)
         pops["too-small" if too_small_for_a_cycle_job(cyc, hrs) else "other"] += 1
+    ctx.coverage["seller_world_histories_with_destination_changes"] = delivered_to_the_current_destination(ctx, exe)
     ctx.coverage.update({
         "evaluations": sum(ops.values()), "distinct_nontrivial": L.distinct_count(cases, lambda h, ls: any(l.startswith("< cyclelog") for l in ls)),
         "rule": "one contract of 4..11 cycles (cycle 60 / 120 / 300 s) at 300 / 800 / 1500 / 2600 GH/s or 1/4, 1/2, 3/4 of the fleet, on a population of 20..49 miners of 90..149 GH/s, 3..5 miners of 4000..11000 GH/s, or 5..14 mixed (120..6000); every half cycle a miner may leave (10%) or join (6%); delivery-window histories (a whole miner leaves mid-cycle, slow end callbacks); late fleets (the contract is bought with too little hashrate connected, 1..3 large miners join half a cycle to four cycles later and stay for ten cycles or more: rates 150..1800 GH/s, the carried shortfall made up by partial or by whole miners); two corpus histories (the known findings). Non-trivial: a history with at least one cycle log entry; distinct by op list",
